@@ -331,6 +331,11 @@ pub open spec fn lifted(b: SessionFrameBody) -> FrameBody {
 //@@ subst `Receiver<SessionFrame>` => `ChanReceiver<SessionFrame>` rule=R9
 //@@ end
 
+/// C17: if the peer advertises an idle time-out T > 0 a heartbeat is armed and its period is at most T (so that no interval of that length passes
+/// without a frame; sending more often is allowed); if it advertises none (unset or 0) no period is derived from it
+pub open spec fn heartbeat_ok(period_ms: Option<u64>, peer_idle_time_out: Option<u32>) -> bool {
+    match peer_idle_time_out { Some(ms) => if ms == 0 { period_ms is None } else { period_ms is Some && 0 < period_ms->Some_0 <= ms as u64 }, None => period_ms is None }
+}
 pub open spec fn close_already_sent(st: ConnectionState) -> bool { st is CloseSent || st is Discarding || st is ClosePipe || st is OpenClosePipe || st is End }
 
 impl ConnectionEngine {
@@ -394,7 +399,7 @@ impl ConnectionEngine {
             final(self).connection.st is End && final(self).transport.sent@ == old(self).transport.sent@
             && (frame.body->Close_0.error is None ==> r == Ok::<Running, ConnectionInnerError>(Running::Stop)),         // [C12.close-completed] the peer's answer to our close ends the connection: nothing more is written
         !(frame.body is Open) && !(frame.body is Close) ==> final(self).heartbeat == old(self).heartbeat,                                         // [C17.heartbeat.not-postponed-by-incoming] receiving frames never re-arms or postpones the heartbeat: the peer's idle time-out is about what WE send
-        frame.body is Open && r is Ok && !(old(self).connection.st is Discarding) ==> final(self).heartbeat.period_ms == (match frame.body->Open_0.idle_time_out { Some(ms) => if ms == 0 { None::<u64> } else { Some(ms as u64) }, None => None::<u64> }),   // [C17.heartbeat.from-peer-open] heartbeats are armed from the peer's idle-time-out; 0 or unset means none [C15.open.zero-idle-timeout] (and never a zero period, which would panic the timer)
+        frame.body is Open && r is Ok && !(old(self).connection.st is Discarding) ==> heartbeat_ok(final(self).heartbeat.period_ms, frame.body->Open_0.idle_time_out),   // [C17.heartbeat.from-peer-open] heartbeats are armed from the peer's idle-time-out; 0 or unset means none [C15.open.zero-idle-timeout] (and never a zero period, which would panic the timer)
 //@@ loop 0
         invariant
             self.outgoing_session_frames.closed@,
@@ -496,7 +501,7 @@ impl ConnectionEngine {
             &&& rc.len() == old(self).transport.recv@.len() + 1 && rc.last().body is Open                                                                        // [C12.open-exchange] opening succeeds only if the first frame from the peer is its Open (a Close or anything else fails the open)
             &&& final(self).transport.enc_max@ == rc.last().body->Open_0.max_frame_size.0 as int                                                                  // [C06.open.peer-max-frame-size] what we send is limited by the PEER's max-frame-size ...
             &&& final(self).transport.dec_max@ == old(self).connection.local_open.max_frame_size.0 as int                                                         // ... what we accept by OUR OWN advertised one
-            &&& final(self).heartbeat.period_ms == (match rc.last().body->Open_0.idle_time_out { Some(ms) => if ms == 0 { None::<u64> } else { Some(ms as u64) }, None => None::<u64> })   // [C17.heartbeat.from-peer-open]
+            &&& heartbeat_ok(final(self).heartbeat.period_ms, rc.last().body->Open_0.idle_time_out)   // [C17.heartbeat.from-peer-open]
         }),
         r is Ok ==> final(self).heartbeat.period_ms is Some ==> final(self).heartbeat.period_ms->Some_0 > 0,                                                          // [C15.open.zero-idle-timeout] never a zero heartbeat period
 //@@ end
